@@ -62,6 +62,7 @@ type DomainSpec struct {
 	Consts []int64                // boundary constants of the specification
 	Strs   []string               // string constants of the specification
 	Env    map[string]Val         // further path bindings (e.g. "p0.byteSize")
+	Init   map[string]Val         // initial contents of input memory the function may overwrite
 	Args   map[int]Val            // further parameter bindings
 	Accept func(v []Val) bool     // the specification: are these subject values admissible?
 	What   string                 // human description of the domain
@@ -536,6 +537,9 @@ func CheckDomain(p *Prog, r *Report, spec DomainSpec) DomainResult {
 				args := append([]Val{}, args0...)
 				for kk, vv := range spec.Env {
 					in.PathBind[kk] = vv
+				}
+				for kk, vv := range spec.Init {
+					in.InitBind[kk] = vv
 				}
 				bound := map[ssa.Value]Val{}
 				for si, s := range spec.Subjs {
